@@ -30,6 +30,86 @@ def load_census():
     return set(json.load(open(CENSUS))["functions"])
 
 
+def split_returns(fd):
+    """Single-exit style (`result = X; goto out; ... out: return result;`): a block that does nothing but return a local which has several
+    definitions is given one copy per predecessor, so that each copy returns the value its own path assigned.  The rules, which quantify
+    over return statements, then see the same returns as in the multi-exit form.  Pure blocks only (no calls, no stores)."""
+    nodes = fd["nodes"]
+    cfg = fd["cfg"]
+    ndefs = {}
+    for n in nodes:
+        if n["k"] == "DeclStmt":
+            for d in n.get("decls", []):
+                if "init" in d:
+                    ndefs[d["did"]] = ndefs.get(d["did"], 0) + 1
+        elif n["k"] == "BinaryOperator" and n.get("op") == "=" and n["c"] and n["c"][0] >= 0:
+            x = n["c"][0]
+            while nodes[x]["k"] == "ParenExpr":
+                x = nodes[x]["c"][0]
+            if nodes[x]["k"] == "DeclRefExpr" and nodes[x].get("did"):
+                ndefs[nodes[x]["did"]] = ndefs.get(nodes[x]["did"], 0) + 1
+    parent = None
+    changed = False
+    for R in list(cfg["blocks"]):
+        el = R["elems"]
+        if not el or nodes[el[-1]]["k"] != "ReturnStmt" or R.get("cond") is not None and R.get("cond", -1) >= 0:
+            continue
+        if any(nodes[e]["k"] not in ("DeclRefExpr", "ImplicitCastExpr", "ParenExpr", "CStyleCastExpr", "ReturnStmt") for e in el):
+            continue
+        r = nodes[el[-1]]
+        if not r["c"] or r["c"][0] < 0:
+            continue
+        x = r["c"][0]
+        while nodes[x]["k"] in ("ImplicitCastExpr", "ParenExpr", "CStyleCastExpr") and nodes[x]["c"]:
+            x = nodes[x]["c"][0]
+        v = nodes[x]
+        if v["k"] != "DeclRefExpr" or v.get("dk") != "local" or ndefs.get(v.get("did"), 0) < 2:
+            continue
+        preds = [b for b in cfg["blocks"] if b is not R and any(s_ is not None and s_["b"] == R["id"] for s_ in b["succs"])]
+        if len(preds) < 2:
+            continue
+        if parent is None:
+            parent = {}
+            for i, n in enumerate(nodes):
+                for c in n["c"]:
+                    if c >= 0:
+                        parent[c] = i
+        for P in preds[1:]:
+            m = {}
+            for e in el:
+                nodes.append(dict(nodes[e]))
+                m[e] = len(nodes) - 1
+            for e in el:
+                n = nodes[m[e]]
+                n["c"] = [m.get(c, c) for c in n["c"]]
+                n["split_of"] = e
+            if el[-1] in parent:
+                nodes[m[el[-1]]]["iparent"] = parent[el[-1]]
+            nb = {"id": max(b["id"] for b in cfg["blocks"]) + 1, "elems": [m[e] for e in el], "succs": [None if s_ is None else dict(s_) for s_ in R["succs"]],
+                  "split_of": R["id"]}
+            cfg["blocks"].append(nb)
+            for s_ in P["succs"]:
+                if s_ is not None and s_["b"] == R["id"]:
+                    s_["b"] = nb["id"]
+            changed = True
+    return changed
+
+
+def name_constants(fd):
+    """a named constant is known to the rules by its name whether it is spelled as a macro, an enum constant or a `static const`:
+    enum-constant references and constant-folded reads of const globals get the macro-name attribute `m` when they have none"""
+    nodes = fd["nodes"]
+    for n in nodes:
+        if n.get("m") or n.get("cv") is None:
+            continue
+        if n["k"] == "DeclRefExpr" and n.get("dk") == "enum":
+            n["m"] = n.get("name")
+        elif n["k"] == "ImplicitCastExpr" and n.get("ck") == "LValueToRValue" and n["c"] and n["c"][0] >= 0:
+            c = nodes[n["c"][0]]
+            if c["k"] == "DeclRefExpr" and c.get("dk") == "global":
+                n["m"] = c.get("name")
+
+
 def load_signatures():
     return json.load(open(CENSUS)).get("signatures", {})
 
@@ -39,7 +119,7 @@ def alias_renamed(allf, rel, census, sigs, log):
     parameter types appeared there, has been renamed: the new name is mapped back to the name the rules know."""
     present = {fd["name"] for fd in allf}
     files = {rel(fd["file"]) for fd in allf}
-    for name, (f, ret, ptypes, _static) in sorted(sigs.items()):
+    for name, (f, ret, ptypes, _static, _pn) in sorted(sigs.items()):
         if name in present or f not in files:
             continue
         cands = [fd for fd in allf if fd["name"] not in census and rel(fd["file"]) == f and fd.get("ret") == ret
@@ -59,6 +139,30 @@ def alias_renamed(allf, rel, census, sigs, log):
                     n["name"] = name
         present.add(name)
         log.append(("<renamed>", "%s -> %s" % (new, name)))
+
+
+def alias_params(allf, sigs, log):
+    """Parameters of a census function keep the names the rules know them by, whatever they are called now (matched by position;
+    only when the number of parameters is unchanged)."""
+    for fd in allf:
+        sg = sigs.get(fd["name"])
+        if not sg or len(sg[4]) != len(fd["params"]):
+            continue
+        ren = {}
+        taken = {l["name"] for l in fd.get("locals", [])} | {p["name"] for p in fd["params"]}
+        for p, want in zip(fd["params"], sg[4]):
+            if p["name"] != want and want and want not in taken:
+                ren[p["did"]] = (p["name"], want)
+                p["name"] = want
+        if not ren:
+            continue
+        for l in fd.get("locals", []):
+            if l.get("did") in ren:
+                l["name"] = ren[l["did"]][1]
+        for n in fd["nodes"]:
+            if n["k"] == "DeclRefExpr" and n.get("did") in ren and n.get("dk") in ("param", "local"):
+                n["name"] = ren[n["did"]][1]
+        log.append(("<params>", "%s: %s" % (fd["name"], ", ".join("%s -> %s" % v for v in ren.values()))))
 
 
 def _addr_taken(fds):
@@ -194,6 +298,17 @@ def inline_one(F, cid, G, serial):
         n["inl"] = G["name"]
         n["ifile"] = gfile
         nodes.append(n)
+    # a parameter that is only ever read, bound to a constant argument: its reads are that constant
+    for p, a in zip(G["params"], args):
+        acv = nodes[a].get("cv")
+        if acv is None or nodes[a]["k"] == "DeclRefExpr":
+            continue
+        refs = [i for i, gn in enumerate(G["nodes"]) if gn["k"] == "DeclRefExpr" and gn.get("did") == p["did"] and gn.get("dk") == "param"]
+        reads = {gn["c"][0] for gn in G["nodes"] if gn["k"] == "ImplicitCastExpr" and gn.get("ck") == "LValueToRValue" and gn["c"]}
+        if refs and all(i in reads for i in refs):
+            for i, gn in enumerate(G["nodes"]):
+                if gn["k"] == "ImplicitCastExpr" and gn.get("ck") == "LValueToRValue" and gn["c"] and gn["c"][0] in refs:
+                    nodes[off + i]["cv"] = acv
     line = call.get("l")
     for l in G.get("locals", []):
         F.setdefault("locals", []).append(dict(l, did=did(l["did"]), inl=G["name"]))
@@ -221,6 +336,7 @@ def inline_one(F, cid, G, serial):
     gentry = G["cfg"]["entry"] + boff
     newblocks = []
     ret_blocks = []            # (block, constant or None)
+    my_returns = set()         # node ids of this clone's own `return` statements (not those of helpers nested in it)
     for gb in G["cfg"]["blocks"]:
         b = dict(gb)
         b["id"] = gb["id"] + boff
@@ -236,6 +352,7 @@ def inline_one(F, cid, G, serial):
         for e in b["elems"]:
             n = nodes[e]
             if n["k"] == "ReturnStmt" and n.get("inl") == G["name"] and e >= off:
+                my_returns.add(e)
                 kid = n["c"][0] if n["c"] and n["c"][0] >= 0 else None
                 if void or kid is None:
                     n["k"] = "NullStmt"
@@ -266,19 +383,43 @@ def inline_one(F, cid, G, serial):
     B["elems"] = B["elems"][:idx] + pre
     B["succs"] = [{"b": gentry, "r": True}]
     orig = dict(call)
+    body_root = nid(G["body"]) if isinstance(G.get("body"), int) and G["body"] >= 0 else None
+    if body_root is not None:
+        nodes[body_root]["iparent"] = cid
     if void:
         call.clear()
-        call.update({"k": "NullStmt", "c": [], "l": orig.get("l"), "src": orig.get("src"), "t": orig.get("t"), "_inlined": G["name"], "synthetic": "call"})
+        call.update({"k": "NullStmt", "c": [], "l": orig.get("l"), "src": orig.get("src"), "t": orig.get("t"), "_inlined": G["name"], "synthetic": "call", "ibody": body_root})
         B2["elems"] = [cid] + rest
     else:
         r = retref()
         call.clear()
         call.update({"k": "ImplicitCastExpr", "ck": "LValueToRValue", "c": [r], "l": orig.get("l"), "src": orig.get("src"),
-                     "t": orig.get("t"), "_inlined": G["name"], "synthetic": "call"})
+                     "t": orig.get("t"), "_inlined": G["name"], "synthetic": "call", "ibody": body_root})
         B2["elems"] = [r, cid] + rest
     for b in newblocks:
         if b["id"] == gexit:
             b["succs"] = [{"b": B2["id"], "r": True}]
+    # ---- tail position: `return helper(..);` -- every return of the clone becomes a return of the caller
+    if not void and not B2.get("cond") and len([x for x in B2["succs"] if x is not None]) == 1:
+        rs = [e for e in B2["elems"] if nodes[e]["k"] == "ReturnStmt"]
+        if len(rs) == 1 and rs[0] == B2["elems"][-1]:
+            chain = _subtree(nodes, rs[0])
+            x = nodes[rs[0]]["c"][0] if nodes[rs[0]]["c"] else -1
+            while x >= 0 and x != cid and nodes[x]["k"] in ("ImplicitCastExpr", "ParenExpr", "CStyleCastExpr") and nodes[x].get("ck") in (None, "NoOp", "BitCast", "LValueToRValue"):
+                x = nodes[x]["c"][0]
+            if x == cid and all(e in chain for e in B2["elems"]):
+                exit_succ = [dict(x_) for x_ in B2["succs"] if x_ is not None]
+                for b in newblocks:
+                    for e in b["elems"]:
+                        n = nodes[e]
+                        if e in my_returns and n.get("synthetic") == "return" and n["k"] == "BinaryOperator":
+                            # turn `__ret = e` back into `return e`
+                            n["k"] = "ReturnStmt"
+                            n["c"] = [n["c"][1]]
+                            n.pop("op", None)
+                            n["synthetic"] = "tail-return"
+                            b["succs"] = exit_succ
+                            b["tail"] = True
     # ---- jump threading for `if (helper(..))`
     if not void and len(B2["succs"]) == 2 and isinstance(B2.get("cond"), int) and B2["cond"] >= 0 and all(s is not None for s in B2["succs"]):
         chain = _subtree(nodes, B2["cond"])
@@ -329,8 +470,6 @@ def inline_program(units, census, taken, log):
         progress = False
         for ui, fds in enumerate(units):
             for fd in fds:
-                if fd["name"] in cand and fd["name"] not in ready:
-                    continue
                 for cidx in _calls(fd, ready):
                     g = lookup(ui, fd["nodes"][cidx]["callee"])
                     if g is fd or g["name"] == fd["name"]:
